@@ -35,6 +35,18 @@ def check(ck):
     fc = prog.func(SRV, POOLED + ".server_close")
     g = cfg_of(fc)
     d = dominators(g)
+    # the field holding the request pool: the attribute of self that PooledJSONRPCServer.__init__ stores `thread_pool` in
+    fi0 = prog.func(SRV, POOLED + ".__init__")
+    gi0 = cfg_of(fi0)
+    pool_fields = set()
+    for n in gi0.live_nodes():
+        if n.kind == "stmt" and isinstance(n.ast, ast.Assign) and isinstance(n.ast.targets[0], ast.Attribute) and dump(n.ast.targets[0].value) == "self":
+            va = prov.value_alts(prov.origin(gi0, n, n.ast.value))
+            if ("param", "thread_pool") in va or any(a[0] == "call" and prov.show(a[1]).endswith("ThreadPool") for a in va):
+                pool_fields.add(dump(n.ast.targets[0]))
+    if len(pool_fields) != 1:
+        raise AnalysisError("anchor vanished: the field of PooledJSONRPCServer storing the request pool (found %s)" % sorted(pool_fields))
+    POOL = pool_fields.pop()
     # ---- C12.1 typestate of shutdown ------------------------------------------------------------
     shut = [(n, c) for n in g.live_nodes() for c in node_calls(n) if call_name(c) == "shutdown"]
     for (n, c) in shut:
@@ -52,8 +64,8 @@ def check(ck):
     okb = len(base) == 1 and base[0][0].id in pd[g.entry.id] and dump(base[0][1].func.value) in ("SimpleJSONRPCServer", "super()", "super(PooledJSONRPCServer, self)")
     ck.require(okb, "C12.2", "%s: base server_close on every normal path" % q.fn(fc), "listening socket closed",
                "PooledJSONRPCServer.server_close does not always call the base server_close: the listening socket stays open", q.loc(fc, fc.node))
-    oks = len(stop) == 1 and stop[0][0].id in pd[g.entry.id] and dump(stop[0][1].func.value) == "self.__request_pool"
-    ck.require(oks, "C12.2", "%s: request pool stopped on every normal path" % q.fn(fc), "self.__request_pool.stop()",
+    oks = len(stop) == 1 and stop[0][0].id in pd[g.entry.id] and dump(stop[0][1].func.value) == POOL
+    ck.require(oks, "C12.2", "%s: request pool stopped on every normal path" % q.fn(fc), "%s.stop()" % POOL,
                "the request pool is not stopped on every normal path of server_close: its workers never terminate", q.loc(fc, fc.node))
     if okb and oks:
         ck.require(base[0][0].id in d[stop[0][0].id], "C12.2", "%s: socket closed before the pool is stopped" % q.fn(fc), "ordered",
@@ -65,7 +77,7 @@ def check(ck):
     enq = [(n, c) for n in gp.live_nodes() for c in node_calls(n) if call_name(c) == "enqueue"]
     ck.require(len(enq) == 1, "C12.3", "%s: one enqueue" % q.fn(fp), "one hand-off", "process_request enqueues %d times" % len(enq), q.loc(fp, fp.node))
     for (n, c) in enq:
-        okk = dump(c.func.value) == "self.__request_pool" and len(c.args) == 3 and dump(c.args[0]) == "self.process_request_thread" and \
+        okk = dump(c.func.value) == POOL and len(c.args) == 3 and dump(c.args[0]) == "self.process_request_thread" and \
             prov.origin(gp, n, c.args[1]) == ("param", "request") and prov.origin(gp, n, c.args[2]) == ("param", "client_address") and not c.keywords
         ck.require(okk, "C12.3", "%s: `%s`" % (q.fn(fp), dump(c)[:70]), "enqueue(self.process_request_thread, request, client_address)",
                    "the connection is handed over as `%s`: the request/handler pair is altered (e.g. finish_request without shutdown_request)" % dump(c)[:80],
@@ -111,7 +123,7 @@ def check(ck):
     di = dominators(gi)
     from vlib.flow import reachable_avoiding
     mk = [(n, c) for (n, c) in q.call_sites(prog, fi, lambda r, c: r == "class:threadpool.ThreadPool")]
-    stores = [n for n in gi.live_nodes() if n.kind == "stmt" and isinstance(n.ast, ast.Assign) and dump(n.ast.targets[0]) == "self.__request_pool"]
+    stores = [n for n in gi.live_nodes() if n.kind == "stmt" and isinstance(n.ast, ast.Assign) and dump(n.ast.targets[0]) == POOL]
     basei = [n for n in gi.live_nodes() for c in node_calls(n) if dump(c.func) == "SimpleJSONRPCServer.__init__" or
              (call_name(c) == "__init__" and "super" in dump(c.func))]
     if not (mk and stores and basei):
@@ -131,7 +143,7 @@ def check(ck):
                 okst = False
     reach = reachable_avoiding(gi, gi.entry.id, set(s_.id for s_ in stores), lambda l: l != "exc")
     ck.require(okst and basei[0].id not in reach, "C12.5", "%s: pool stored before the base constructor" % q.fn(fi),
-               "self.__request_pool set (given pool or started default) on every path to the base constructor",
+               "the pool field set (given pool or started default) on every path to the base constructor",
                "the request pool is stored after the server may already accept connections (or is not the given / default pool)",
                q.loc(fi, stores[0]))
     ck.floor("C12.5", 6)
